@@ -102,24 +102,27 @@ def check_get_identifiers(ctx, V):
     lp = loops[0]
     tv = lp.target.id
     body = lp.body
-    ok_shape = len(body) == 1 and isinstance(body[0], ast.If) and not body[0].orelse and len(body[0].body) == 1 \
-        and isinstance(body[0].body[0], ast.Expr) and isinstance(body[0].body[0].value, ast.Yield) and is_name(body[0].body[0].value.value, tv)
-    ctx.need(ok_shape, 'IdentifierList.get_identifiers: loop body is no longer `if <cond>: yield token`')
-    cond = body[0].test
-    ev = ME.Evaluator(ctx, f.mod, f.cls)
+    stray = [n for s_ in f.node.body if s_ is not lp for n in ast.walk(s_) if isinstance(n, (ast.Yield, ast.YieldFrom))]
+    ctx.need(not stray, 'IdentifierList.get_identifiers yields outside its loop over self.tokens')
     kinds = KD.leaf_kinds(ctx, V.T) + [ME.AbsToken(repo, cls=c) for c in KD.group_classes(ctx)]
     for k in kinds:
         want = not (k.is_whitespace or (k.ttype == TT(('Punctuation',)) and k.value == ','))
+        # one iteration of the loop body is interpreted on the abstract token: which tokens does it yield?
+        out = []
+        ev = ME.Evaluator(ctx, f.mod, f.cls)
+        ev.on_yield = out.append
         try:
-            got = ev.truth(ev.ev(cond, {tv: k}))
+            ME.run_function(ev, ast.FunctionDef(name='it', body=body, args=None), {tv: k, 'self': ME.Obj(_cls=f.cls)})
+            got = (len(out) == 1 and out[0] is k) if out else False
+            extra = len(out) > 1 or (out and out[0] is not k)
         except (ME.Unknown, ME.Unsupported) as e:
             ctx.ob('R13.2', f'kind:{k.label}', f'{f.mod.relpath}:{lp.lineno}', 'filter decidable on this kind', None, str(e))
             continue
         except ME.Crash as e:
-            got = f'crash {e}'
-        ctx.ob('R13.2', f'kind:{k.label}', f'{f.mod.relpath}:{body[0].lineno}',
-               f'get_identifiers {"yields" if want else "drops"} a {k.label} item', got == want,
-               f'filter `{src(cond)}` evaluates to {got} on {k.label}: a written list item is dropped, or a separator is returned as an item')
+            got, extra = f'crash {e}', False
+        ctx.ob('R13.2', f'kind:{k.label}', f'{f.mod.relpath}:{lp.lineno}',
+               f'get_identifiers {"yields" if want else "drops"} a {k.label} item', got == want and not extra,
+               f'one iteration on {k.label} yields {[getattr(x, "label", x) for x in out]} ({got}): a written list item is dropped, or a separator is returned as an item')
 
 
 FUNCTION_NAME_TYPES = [TT(('Name',)), TT(('Name', 'Builtin'))]
